@@ -120,12 +120,11 @@ def run(ctx):
 
 
 MUTANTS = [
-    Mutant('call-skips-kwargs', FILE, "        kwarguments = tuple((k, self.visit(v, **kwargs)) for k, v in o.kwarguments)\n        return o._rebuild(arguments=arguments, kwarguments=kwarguments)",
-           "        return o._rebuild(arguments=arguments)", expect=('R1', 'visit_CallStatement:kwarguments'), quick=True),
+    Mutant('call-skips-kwargs', FILE, "        kwarguments = tuple((k, self.visit(v, **kwargs)) for k, v in o.kwarguments)\n        return o._rebuild(name=name, arguments=arguments, kwarguments=kwarguments)",
+           "        return o._rebuild(name=name, arguments=arguments)", expect=('R1', 'visit_CallStatement:kwarguments'), quick=True),
+    Mutant('call-skips-name', FILE, "        name = self.visit(o.name, **kwargs)\n        arguments = self.visit(o.arguments, **kwargs)", "        name = o.name\n        arguments = self.visit(o.arguments, **kwargs)",
+           expect=('R1', 'visit_CallStatement:name')),
     Mutant('mapper-drops-procedure-symbols', FILE, "    map_procedure_symbol = map_scalar\n", "", expect=('R2', 'ProcedureSymbol')),
     Mutant('expressions-not-mapped', FILE, "        return ResolveAssociateMapper(start_depth=self.start_depth)(o)", "        return o",
            expect=('R3', 'visit_Expression')),
-    Mutant('repair-call-name', FILE, "        arguments = self.visit(o.arguments, **kwargs)\n        kwarguments = tuple((k, self.visit(v, **kwargs)) for k, v in o.kwarguments)\n        return o._rebuild(arguments=arguments, kwarguments=kwarguments)",
-           "        name = self.visit(o.name, **kwargs)\n        arguments = self.visit(o.arguments, **kwargs)\n        kwarguments = tuple((k, self.visit(v, **kwargs)) for k, v in o.kwarguments)\n        return o._rebuild(name=name, arguments=arguments, kwarguments=kwarguments)",
-           expect=None),
 ]
